@@ -1015,12 +1015,17 @@ class ListBox(Widget, WidgetContainerMixin):
             return None
 
         # restore old focus temporarily
-        self._body.set_focus(focus_pos)
-
-        middle, top, bottom = self.calculate_visible((maxcol, maxrow), focus)
-        focus_offset, _focus_widget, focus_pos, focus_rows, _cursor = middle  # pylint: disable=unpacking-non-sequence
-        _trim_top, fill_above = top  # pylint: disable=unpacking-non-sequence
-        _trim_bottom, fill_below = bottom  # pylint: disable=unpacking-non-sequence
+        try:
+            self._body.set_focus(focus_pos)
+        except (IndexError, KeyError):
+            # the old focus position no longer exists: there is nothing to place the new focus relative to
+            focus_offset = focus_rows = 0
+            fill_above = fill_below = ()
+        else:
+            middle, top, bottom = self.calculate_visible((maxcol, maxrow), focus)
+            focus_offset, _focus_widget, focus_pos, focus_rows, _cursor = middle  # pylint: disable=unpacking-non-sequence
+            _trim_top, fill_above = top  # pylint: disable=unpacking-non-sequence
+            _trim_bottom, fill_below = bottom  # pylint: disable=unpacking-non-sequence
 
         offset = focus_offset
         for _widget, pos, rows in fill_above:
